@@ -83,7 +83,13 @@ class Seams:
 		if not writing:
 			if self.watched_read(rel):
 				self.event('open-r', rel)
-			return self._open(file, mode, *args, **kwargs)
+			real = self._open(file, mode, *args, **kwargs)
+			unbuffered = (args and args[0] == 0) or kwargs.get('buffering') == 0
+			if unbuffered and 'b' in mode:
+				# a raw file object: each read() is one read(2), which may legally deliver fewer bytes than asked for
+				# (buffered readers loop until EOF and absorb that, so only raw readers are wrapped)
+				return RawReader(self, real, rel)
+			return real
 		index = self.event('open-w', rel)
 		left = self._eacces_left.get(rel, 0)
 		f = self.planned(index, ('eacces@open',))
@@ -181,6 +187,33 @@ class TracedWriter:
 
 	def __exit__(self, *exc: Any) -> None:
 		self.close()
+
+	def __getattr__(self, name: str) -> Any:
+		return getattr(self._f, name)
+
+
+class RawReader:
+	"""Unbuffered binary reader under the scratch root: read(n) is traced and may be cut short once by a planned fault."""
+
+	def __init__(self, seams: Seams, real: Any, rel: str) -> None:
+		self._s = seams
+		self._f = real
+		self._rel = rel
+
+	def read(self, n: int = -1) -> bytes:
+		s = self._s
+		index = s.event('read', self._rel, n)
+		f = s.planned(index, ('short-read',))
+		if f is None or n is None or n < 0:
+			return self._f.read(n)
+		s.fired.append('short-read')
+		return self._f.read(max(1, min(int(f.get('k', n // 2)), n)))
+
+	def __enter__(self) -> 'RawReader':
+		return self
+
+	def __exit__(self, *exc: Any) -> None:
+		self._f.close()
 
 	def __getattr__(self, name: str) -> Any:
 		return getattr(self._f, name)
